@@ -172,7 +172,7 @@ def run(ck):
     # Every window of the extension area the walker looks at (extension data, next extension id) starts where the previous one
     # ended, the first at offset 0, and the length it reports is the end of the last window: no byte is skipped, read twice, or
     # left to the payload by mistake.  (Which size each extension has is R2 / the manager; this is the offset bookkeeping.)
-    WALK = 'gse_decap::iterate_over_extension_header'
+    WALK = walker_key(f)
     wbody = f.body(WALK)
     area_i = param_index(wbody, 'pdu')
     st_adt = [t for t in f.adts if t.endswith('IterateOverExtensionHeaderStatus')]
